@@ -108,6 +108,58 @@ func tableFlagSets() []flagset {
 	return out
 }
 
+// roModes are the invocation modes that load the remote Taskfile(s) without
+// running commands. None of them may count as an approval.
+var roModes = []string{"dry", "status", "list-all", "summary"}
+
+// roFlagSets: {--yes?} x {default, --download, --offline}, all with --insecure, plus one without.
+func roFlagSets() []flagset {
+	var out []flagset
+	for _, yes := range []bool{false, true} {
+		for _, mode := range []string{"", "download", "offline"} {
+			out = append(out, flagset{Yes: yes, Download: mode == "download", Offline: mode == "offline", Insecure: true})
+		}
+	}
+	return append(out, flagset{})
+}
+
+// roTableHistories: every cell of cache state x server fault x read-only mode x
+// roFlagSets. The cell's invocation is followed by probes that make a wrongly
+// recorded approval visible: an ordinary --offline run (would run what was
+// cached as approved) and, if the server is up, an ordinary online run (would
+// not be prompted if the checksum was stored as approved).
+func roTableHistories(tp *topo) []*history {
+	var out []*history
+	for _, cs := range cacheStates {
+		for _, fault := range faults {
+			for _, md := range roModes {
+				for _, fs := range roFlagSets() {
+					fs.Mode = md
+					hs := &history{Kind: "table", Topo: tp.Name, tp: tp}
+					hs.Cell = fmt.Sprintf("%s | cache=%s | server=%s | %s", tp.Name, cs, fault, fs)
+					sv := 1
+					if cs != "none" {
+						hs.Steps = append(hs.Steps, step{Mode: mUp, Vers: allVers(tp, 1), Flags: flagset{Yes: true, Insecure: true}, Role: "prefix"})
+					}
+					if cs == "approved-v1+server-v2" {
+						sv = 2
+					}
+					if fault == mHang {
+						fs.Timeout = "1s"
+					}
+					hs.Steps = append(hs.Steps, step{Mode: fault, Vers: allVers(tp, sv), Flags: fs, Role: "cell"})
+					hs.Steps = append(hs.Steps, step{Mode: fault, Vers: allVers(tp, sv), Flags: flagset{Offline: true, Insecure: true}, Role: "probe"})
+					if fault == mUp {
+						hs.Steps = append(hs.Steps, step{Mode: fault, Vers: allVers(tp, sv), Flags: flagset{Insecure: true}, Role: "probe"})
+					}
+					out = append(out, hs)
+				}
+			}
+		}
+	}
+	return out
+}
+
 func allVers(tp *topo, v int) map[string]int {
 	m := map[string]int{}
 	for _, f := range tp.Files {
@@ -182,7 +234,8 @@ func randomHistory(r *rand.Rand, tp *topo) *history {
 		}
 		fl.Expiry = pickW(r, []string{"", "0", "1000h"}, []int{40, 20, 40})
 		fl.Insecure = r.Intn(100) < 90
-		if !fl.Download && r.Intn(100) < 7 {
+		fl.Mode = pickW(r, append([]string{""}, roModes...), []int{70, 9, 7, 7, 7})
+		if !fl.Download && fl.Mode == "" && r.Intn(100) < 7 {
 			fl.ClearCache = true
 		}
 		if isHang(mode) || r.Intn(100) < 15 {
@@ -266,7 +319,9 @@ func runHistory(bin, scratch string, hs *history, part *h.Partial) *histResult {
 		os.Remove(trace)
 		srv.beginStep()
 		args := append(append([]string{}, pre...), st.Flags.args()...)
-		args = append(args, tp.Tasks...)
+		if st.Flags.Mode != "list-all" {
+			args = append(args, tp.Tasks...)
+		}
 		env := append([]string{"TASK_X_REMOTE_TASKFILES=1", "TASK_TEMP_DIR=" + tmp, "C20_TRACE=" + trace}, st.Flags.env()...)
 		r := h.CLI{Bin: bin, Dir: proj, Args: args, Env: env, Timeout: 60 * time.Second}.Run()
 		sv, foreign, quiet := srv.endStep()
@@ -373,12 +428,28 @@ func Run(id string, start time.Time) int {
 		// quick: the full table for the remote-root topology and for one seed-chosen include topology
 		tableTopos = append(tableTopos, &topos[0], &topos[1+int(h.Seed()%3+3)%3])
 	}
+	// the read-only-mode table: all topologies (thorough) / one seed-chosen topology (quick)
+	var roTopos []*topo
+	if h.Thorough() {
+		for i := range topos {
+			roTopos = append(roTopos, &topos[i])
+		}
+	} else {
+		roTopos = append(roTopos, &topos[int(h.Seed()%4+4)%4])
+	}
 	tableSize := 0
 	for _, tp := range tableTopos {
 		t := tableHistories(tp)
 		tableSize += len(t)
 		hists = append(hists, t...)
 	}
+	roSize := 0
+	for _, tp := range roTopos {
+		t := roTableHistories(tp)
+		roSize += len(t)
+		hists = append(hists, t...)
+	}
+	tableSize += roSize
 	nRandom := h.Pick(300, 5000)
 	for i := 0; i < nRandom; i++ {
 		r := h.Rng(20, int64(i))
@@ -393,7 +464,7 @@ func Run(id string, start time.Time) int {
 	var mu sync.Mutex
 	visited := map[string]bool{}
 	sampleKinds := map[string]int{}
-	h.Parallel(len(hists), 16, func(k int) {
+	h.Parallel(len(hists), 32, func(k int) {
 		hs := hists[order[k]]
 		res := runHistory(bin, scratch, hs, part)
 		judged := 0
@@ -451,11 +522,18 @@ func Run(id string, start time.Time) int {
 		tnames = append(tnames, tp.Name)
 	}
 	sort.Strings(tnames)
+	var ronames []string
+	for _, tp := range roTopos {
+		ronames = append(ronames, tp.Name)
+	}
+	sort.Strings(ronames)
 	rule := "case = one history (a fresh project dir, fresh TASK_TEMP_DIR and an own HTTP server on 127.0.0.1) of CLI invocations, each preceded by setting the server's state " +
 		"(content version 1-3 per remote file; up, 404, 500, connection refused, hang before/after HEAD/mid-body). " +
 		"(a) table: every cell of {no cache, approved v1, approved v1 + server has v2} x {up, 404, 500, refused, hang} x 36 flag sets " +
 		"({--yes?} x {-, --download, --offline} x {no --expiry, --expiry 0, --expiry 1000h} x {--insecure?}; --timeout 1s in hang cells) per topology in coverage.table_topologies; " +
-		"(b) seeded random histories of 5-10 steps over the same alphabet plus --clear-cache, --timeout 1s, TASK_OFFLINE=1, over 4 topologies (remote root; remote include; local->remote->remote; remote root->remote). " +
+		"(a2) read-only table: every cell of the same cache states x server faults x {--dry, --status, --list-all, --summary} x 7 flag sets ({--yes?} x {-, --download, --offline} with --insecure, and one without) " +
+		"per topology in coverage.readonly_table_topologies, each followed by probe runs (an ordinary --offline run and, with the server up, an ordinary online run) that expose an approval recorded by the read-only run; " +
+		"(b) seeded random histories of 5-10 steps over the same alphabet plus --clear-cache, --timeout 1s, TASK_OFFLINE=1 and the read-only modes (30% of the steps), over 4 topologies (remote root; remote include; local->remote->remote; remote root->remote). " +
 		"Oracle: history monitor whose state (approved+cached version per remote file) is updated only from markers that ran, exit codes and GETs answered under --yes; clauses: " +
 		"safety (a marker only of the approved version), 104+empty trace when unapproved content was fetched without --yes, exit 0 + the cached version's marker under --offline/refused/hang/5xx once approved, " +
 		"105 without --insecure, 106 for --offline without cache. non-trivial = at least one clause had an obligation in the history; distinct by (topology, per-step server state, versions, flags)."
@@ -466,6 +544,7 @@ func Run(id string, start time.Time) int {
 	return h.Finish(h.Report{
 		ID: id, Level: level, Rule: rule, Exhaustive: &exhaustive, Start: start,
 		Assumptions: []string{
+			"read-only modes (--dry, --status, --list-all, --summary) are judged for 104/105/106 and safety like any other run and never count as an approval unless --yes is given; what they print, their exit status on approved content and their use of the cache when the server is unavailable are not judged",
 			"no terminal is attached (stdin is /dev/null), so the only way to approve is --yes; interactive approval is not exercised here",
 			"git transport is not exercised (no git server offline); the HTTP node drives the shared reader/cache code",
 			"freshness (cached copy vs newer server content when both are legitimate) is not judged",
@@ -474,12 +553,14 @@ func Run(id string, start time.Time) int {
 			"expiry is only ever 0 or 1000h, so no verdict depends on the clock; CLI-side fetch timeouts against a healthy server are inconclusive",
 		},
 		Extra: map[string]any{
-			"table_cells":       tableSize,
-			"table_visited":     nvis,
-			"table_topologies":  tnames,
-			"exhaustive_scope":  "the (cache state x server fault x flag set) table of the listed topologies only; random histories are a sample",
-			"random_histories":  nRandom,
-			"history_generator": "h.Rng(20, i)",
+			"table_cells":               tableSize,
+			"table_visited":             nvis,
+			"table_topologies":          tnames,
+			"readonly_table_cells":      roSize,
+			"readonly_table_topologies": ronames,
+			"exhaustive_scope":          "the (cache state x server fault x flag set) table of the listed topologies only; random histories are a sample",
+			"random_histories":          nRandom,
+			"history_generator":         "h.Rng(20, i)",
 		},
 		MinEvents: 200, EventsKey: "cli_runs",
 	}, part)
